@@ -300,7 +300,7 @@ func c14Labelspace(rep *core.Report) {
 	// non-labels must be rejected
 	var non []string
 	for _, l := range c14Labels {
-		non = append(non, " "+l, l+" ", l+"x", "x"+l, l[1:], l[:len(l)-1])
+		non = append(non, " "+l, l+" ", l+"x", "x"+l, l[1:], l[:len(l)-1], "\""+l+"\"", l+"\"", "\""+l, l[:1]+"\""+l[1:], "'"+l+"'", l+"\\", l+"\x00")
 		if u := strings.ToUpper(l); u != l {
 			non = append(non, u)
 		}
